@@ -54,6 +54,7 @@ type Config struct {
 	Roots     []RootSpec `json:"roots"`
 	NondetCommit bool    `json:"nondet_commit,omitempty"`
 	Workers   int        `json:"workers,omitempty"`
+	KeepGlobals bool     `json:"-"` // C16: globals were set once before the goroutines started
 }
 
 // Case is the replay unit.
@@ -138,8 +139,8 @@ func addrOf(n uint64) atree.Address {
 	return a
 }
 
-// NewEngine applies the global settings of cfg and creates the roots.
-func NewEngine(cfg Config, or Oracles) (*Engine, error) {
+// ApplyGlobals sets the library's process-global settings (R9: never while goroutines use the library).
+func ApplyGlobals(cfg Config) {
 	if cfg.Slab == 0 {
 		cfg.Slab = 1024
 	}
@@ -148,6 +149,16 @@ func NewEngine(cfg Config, or Oracles) (*Engine, error) {
 		atree.VerifSetMaxCollisionLimitPerDigest(cfg.CollLimit)
 	} else {
 		atree.VerifSetMaxCollisionLimitPerDigest(255)
+	}
+}
+
+// NewEngine applies the global settings of cfg and creates the roots.
+func NewEngine(cfg Config, or Oracles) (*Engine, error) {
+	if cfg.Slab == 0 {
+		cfg.Slab = 1024
+	}
+	if !cfg.KeepGlobals {
+		ApplyGlobals(cfg)
 	}
 	if cfg.Keys == 0 {
 		cfg.Keys = 64
